@@ -182,6 +182,7 @@ class Ctl:
         self.fired = []
         self.delays = {}  # method name -> virtual seconds (or callable(n) -> seconds)
         self.yields = {}  # method name -> number of bare loop iterations the call gives up (no virtual time passes)
+        self.fail_names = set()  # every call of these methods fails (switched on and off by the scenario)
         self.open_handles = 0
         self.record = True
         self.exc_factory = lambda name: OSError(5, "injected fault @" + name)
@@ -199,7 +200,7 @@ class Ctl:
             await asyncio.sleep(d(self.n) if callable(d) else d)
         for _ in range(self.yields.get(name, 0)):
             await asyncio.sleep(0)
-        if self.n in self.fail_at:
+        if self.n in self.fail_at or name in self.fail_names:
             self.fired.append((self.n, name))
             if self.on_fire:
                 self.on_fire(self.n, name)
